@@ -22,6 +22,8 @@ impl Notifier {
         const LEN: usize = std::mem::size_of::<u64>();
 
         let mut buffer = [0u8; LEN];
+        #[cfg(compio_verif)]
+        crate::verif::emit(crate::verif::NOTIFY_CLEAR, 0, 0);
 
         let res = poll_io(|| rustix::io::read(self, &mut buffer))?;
 
@@ -86,6 +88,8 @@ impl Wake for Notify {
 
     fn wake_by_ref(self: &Arc<Self>) {
         if !self.awake.wake() {
+            #[cfg(compio_verif)]
+            crate::verif::emit(crate::verif::NOTIFY_WRITE, 0, 0);
             rustix::io::write(&self.fd, &u64::to_be_bytes(1)).ok();
         }
     }
